@@ -56,6 +56,14 @@ fn c03_all() {
     for s in ["interface I { }", "package a; interface I { } interface J { }", "package a; interface I { } trailing", "package a; interface I { } }", "package a; enum E { A = 1 } , B , }",
               "package a; interface I { void f() }", "package a; interface I { String s = \"unterminated; }", "package a; /* open comment interface I { }", "", "package a;",
               "package a; interface I { void f(int a ; void g(); }", "package a; parcelable P { int x } }", "package a; interface I { void f(); } ;"].iter() { bad.push(s.to_string()); }
+    // near misses of the grammar: one piece missing or doubled (each must be reported; checked below with the structural ones)
+    let near = ["package a; import Foo; interface I { }", "package ; interface I { }", "package a; interface I", "package a; interface I { void f; }", "package a; interface I { void f(int); void g(, int a); }",
+                "package a; parcelable P { int; }", "package a; enum E { A = , B }", "package a; @A( interface I { }", "package a; interface I { const int K; }", "package a; interface I { void f(in); }",
+                "package a; parcelable P { List<> l; }", "package a; parcelable P { Map<String> m; }", "package a; parcelable P { int[ a; }", "package a; interface I { oneway oneway void f(); }",
+                "package a; interface I { void f() = ; }", "package a; interface I { void f() = x; }", "package a; import a..B; interface I { }", "package a.; interface I { }", "package a; parcelable P { int a = ; }",
+                "package a; interface I { in int f(); }", "package a; interface { }", "package a; parcelable P { Map<String, , int> m; }", "package a; enum E { A B }", "package a; interface I { void f(int a int b); }"];
+    let structural = 13 + near.len();
+    for s in near.iter() { bad.push(s.to_string()); }
     for b in bad.iter() {
         n += 1;
         // `in`, `out`, `inout`, `int`, ... in some slots form other well-formed phrases; the oracle only demands an Error when
@@ -65,7 +73,7 @@ fn c03_all() {
         let offending: Vec<&String> = names.iter().filter(|x| keywords.contains(&x.as_str()) || reserved.contains(&x.as_str()) || !x.is_ascii()).collect();
         if !offending.is_empty() { println!("WITNESS stored identifier(s) {:?} are keywords / reserved words / non-ASCII; errors={} source: {:?}", offending, e, b); ok = false; }
     }
-    for b in bad.iter().rev().take(13) {
+    for b in bad.iter().rev().take(structural) {
         let (e, _, _) = errors(b);
         if e == 0 { println!("WITNESS malformed document reported free of syntax errors; source: {:?}", b); ok = false; }
     }
